@@ -9,7 +9,10 @@ the repairs 25f08fe (char_index_to_position), 65d5810 (semantic tokens), 61b6f0d
 sampled documents.
 
 Domain hypotheses are the ones the callers guarantee: offsets on character boundaries inside the
-text (token spans come from the lexer, literal extents from the extraction regex).
+text (token spans come from the lexer, literal extents from the extraction regex), and two facts
+true of every valid UTF-8 text (every Rust `String`), stated as hypotheses rather than derived
+from a validity predicate: the text does not begin with a continuation byte (`isBoundary s 0`) and
+no continuation byte directly follows a line feed (`NlThenBoundary`).
 -/
 import IsoVerif.Lemmas.LspPos
 
@@ -23,12 +26,12 @@ theorem C23_spec (s : Bytes) (off : Nat) :
   Lemmas.LspPos.utf16Pos_eq s off
 
 /-- `char_index_to_position` = `utf16Pos` (formatting edits, diagnostics, go-to-definition). -/
-theorem C23_loc (content : Bytes) (off : Nat) (hle : off ≤ content.length)
-    (hb : isBoundary content off = true) :
+theorem C23_loc (content : Bytes) (off : Nat) (h0 : isBoundary content 0 = true)
+    (hle : off ≤ content.length) (hb : isBoundary content off = true) :
     charIndexToPosition content off = .ok (utf16Pos content off) :=
-  Lemmas.LspPos.charIndexToPosition_eq content off hle hb
+  Lemmas.LspPos.charIndexToPosition_eq content off h0 hle hb
 
-example : isBoundary (strBytes "é😀`x") 6 = true ∧ utf16Pos (strBytes "é😀`x") 6 = (0, 3) := by
+example : isBoundary (strBytes "é😀`x") 0 = true ∧ isBoundary (strBytes "é😀`x") 6 = true ∧ utf16Pos (strBytes "é😀`x") 6 = (0, 3) := by
   decide +kernel
 
 /-- `delta_line_delta_start` of a text is the position of its end. -/
@@ -36,25 +39,31 @@ theorem C23_delta (t : Bytes) : deltaLineDeltaStart t = utf16Pos t t.length :=
   Lemmas.LspPos.deltaLineDeltaStart_eq t
 
 /-- The formatting edit's range decodes to exactly the literal's extent. -/
-theorem C23_edit (content : Bytes) (start len : Nat) (hle : start + len ≤ content.length)
+theorem C23_edit (content : Bytes) (start len : Nat) (h0 : isBoundary content 0 = true)
+    (hle : start + len ≤ content.length)
     (hs : isBoundary content start = true) (he : isBoundary content (start + len) = true) :
     rangeOfExtraction content start len =
       .ok (utf16Pos content start, utf16Pos content (start + len)) :=
-  Lemmas.LspPos.rangeOfExtraction_eq content start len hle hs he
+  Lemmas.LspPos.rangeOfExtraction_eq content start len h0 hle hs he
 
 /-- Diagnostic / definition ranges: both ends of the span, relative to the literal's start. -/
-theorem C23_range (content : Bytes) (base s e : Nat) (hse : s ≤ e) (hle : base + e ≤ content.length)
+theorem C23_range (content : Bytes) (base s e : Nat) (h0 : isBoundary content 0 = true)
+    (hse : s ≤ e) (hle : base + e ≤ content.length)
     (hs : isBoundary content (base + s) = true) (he : isBoundary content (base + e) = true) :
     locationRange content base s e =
       .ok (utf16Pos content (base + s), utf16Pos content (base + e)) :=
-  Lemmas.LspPos.locationRange_eq content base s e hse hle hs he
+  Lemmas.LspPos.locationRange_eq content base s e h0 hse hle hs he
+
+/-- no continuation byte directly after a line feed (valid UTF-8) -/
+def NlThenBoundary (page : Bytes) : Prop :=
+  ∀ i, i < page.length → page[i]? = some nl → isBoundary page (i + 1) = true
 
 /-- Decoding the emitted delta-encoded semantic tokens yields exactly, for every source token and
 every per-line piece of it, the piece's `utf16Pos` start and its UTF-16 length. -/
-theorem C23_tokens (page : Bytes) (lits : List LitToks)
-    (h : spansOk page 0 (absSpans lits) = true) :
+theorem C23_tokens (page : Bytes) (lits : List LitToks) (h0 : isBoundary page 0 = true)
+    (hnl : NlThenBoundary page) (h : spansOk page 0 (absSpans lits) = true) :
     ∃ ts, lspTokens page lits = .ok ts ∧ decode ts = expectedTokens page lits :=
-  Lemmas.LspPos.lspTokens_decode page lits h
+  Lemmas.LspPos.lspTokens_decode page lits h0 hnl h
 
 /-- … and these ranges are increasing and do not overlap. -/
 theorem C23_tokens_increasing (page : Bytes) (lits : List LitToks)
@@ -67,7 +76,9 @@ token spans two lines -/
 example :
     let page := strBytes "é😀 iso(`ab \"\"\"x\ny\"\"\"`)"
     let lits : List LitToks := [⟨12, [⟨0, 2, 15⟩, ⟨3, 12, 17⟩]⟩]
-    spansOk page 0 (absSpans lits) = true ∧
+    isBoundary page 0 = true ∧
+      (∀ i, i < page.length → page[i]? = some nl → isBoundary page (i + 1) = true) ∧
+      spansOk page 0 (absSpans lits) = true ∧
       expectedTokens page lits = [⟨0, 9, 2, 15⟩, ⟨0, 12, 5, 17⟩, ⟨1, 0, 4, 17⟩] := by
   decide +kernel
 
@@ -80,14 +91,15 @@ theorem C23_hover_index (src : Bytes) (o : Nat) (hle : o ≤ src.length)
 /-- Hover / go-to-definition: the position of byte `o` of the `k`-th literal is resolved to
 exactly `(k, o)`. -/
 theorem C23_hover (page : Bytes) (lits : List (Nat × Nat)) (k start len o : Nat)
+    (h0 : isBoundary page 0 = true)
     (hl : litsOk page 0 true lits = true) (hk : lits[k]? = some (start, len)) (ho : o ≤ len)
     (hb : isBoundary page (start + o) = true) :
     hoverOffset page lits (utf16Pos page (start + o)) = .ok (some (k, o)) :=
-  Lemmas.LspPos.hoverOffset_inv page lits k start len o hl hk ho hb
+  Lemmas.LspPos.hoverOffset_inv page lits k start len o h0 hl hk ho hb
 
 example :
     let page := strBytes "é iso(`ab`) 😀 iso(`c\ndé`)"
-    litsOk page 0 true [(8, 2), (23, 5)] = true ∧
+    isBoundary page 0 = true ∧ litsOk page 0 true [(8, 2), (23, 5)] = true ∧
       hoverOffset page [(8, 2), (23, 5)] (utf16Pos page (23 + 3)) = .ok (some (1, 3)) := by
   decide +kernel
 
